@@ -132,6 +132,15 @@ class Program:
         pkg = m.name if m.is_pkg else m.name.rsplit(".", 1)[0]
         for n in m.tree.body:
             self._index_stmt(m, pkg, n)
+        # function-local imports resolve names too (never overriding a module-level binding)
+        top = dict(m.imports)
+        for n in ast.walk(m.tree):
+            if isinstance(n, (ast.Import, ast.ImportFrom)) and n not in m.tree.body:
+                saved = dict(m.imports)
+                self._index_stmt(m, pkg, n)
+                for k, v in saved.items():
+                    if k in top:
+                        m.imports[k] = v
 
     def _index_stmt(self, m, pkg, n):
         if isinstance(n, ast.Import):
